@@ -664,10 +664,69 @@ def run_user_macro(res):
   harness.hard_reset()
 
 
+def run_reference_spellings(res):
+  """References: every unambiguous spelling of one configurable is the same key (equal, same hash, one dict entry), and
+  a binding written with a longer spelling is as representable as one written with the shortest."""
+  import itertools  # pylint: disable=import-outside-toplevel
+  case = ['reference_spellings']
+  harness.hard_reset()
+  res.case(tuple(case), True)
+  for ev in ('', '()'):
+    refs = {sp: cfg.parse_value('@' + sp + ev) for sp in HOOK_SPELLINGS[1:]}         # x.y.solo, y.solo, solo
+    for (sa, a), (sb, b) in itertools.combinations(refs.items(), 2):
+      if not (a == b and not (a != b) and hash(a) == hash(b) and len({a: 1, b: 2}) == 1):
+        res.violation('spelling_mismatch', '%r: the references @%s%s and @%s%s name one configurable but are different keys '
+                      '(==: %s, same hash: %s)' % (case, sa, ev, sb, ev, a == b, hash(a) == hash(b)), case)
+        harness.hard_reset()
+        return
+    for sp in refs:
+      harness.hard_reset()
+      gin.parse_config('cons.consumer.r = @%s%s\n' % (sp, ev))
+      text = gin.config_str()
+      if 'consumer.r = @' not in text:
+        res.violation('spelling_mismatch', '%r: a binding written as @%s%s is missing from the config string:\n%s' %
+                      (case, sp, ev, text), case)
+        harness.hard_reset()
+        return
+  res.w('reference_spellings_one_key')
+  harness.hard_reset()
+
+
+def run_nested_constants_after_clear(res):
+  """Constants whose names nest by suffix (definable longest-first only in interactive mode): after a clear that keeps the
+  constants, a name equal to a complete stored name still resolves to exactly that entry."""
+  import itertools  # pylint: disable=import-outside-toplevel
+  names = ['c08k.units.C', 'units.C', 'C']
+  for order in itertools.permutations(range(3)):
+    case = ['nested_constants_after_clear', list(order)]
+    harness.hard_reset()
+    res.case(tuple(map(str, case)), True)
+    with gin.config.interactive_mode():
+      for i in order:
+        gin.constant(names[i], 'value of ' + names[i])
+    gin.clear_config()
+    got = {}
+    for n in names:
+      try:
+        got[n] = gin.query_parameter(n)
+      except Exception as e:  # pylint: disable=broad-except
+        got[n] = 'raised %s' % type(e).__name__
+    want = {n: 'value of ' + n for n in names}
+    if got != want:
+      res.violation('exact_name_after_clear', '%r: constants defined in that order, then clear_config(): names resolve to %r, '
+                    'expected %r' % (case, got, want), case)
+      harness.hard_reset()
+      return
+  res.w('exact_precedence_after_clear')
+  harness.hard_reset()
+
+
 def run(ctx):
   res = core.Result()
   run_method_names(res)
   run_user_macro(res)
+  run_reference_spellings(res)
+  run_nested_constants_after_clear(res)
   run_a(ctx, res)
   cases = list(b_cases()) + list(hook_cases())
   res.sample({'api_case': cases[len(cases) // 3]})
@@ -686,6 +745,10 @@ def replay(obj):
       run_method_names(res)
     elif obj[0] == 'user_configurable_named_macro':
       run_user_macro(res)
+    elif obj[0] == 'reference_spellings':
+      run_reference_spellings(res)
+    elif obj[0] == 'nested_constants_after_clear':
+      run_nested_constants_after_clear(res)
     elif obj[0] in ('hook', 'const', 'macro_spelling'):
       run_hook_case(obj, res)
     else:
